@@ -4,6 +4,7 @@ import (
 	"cmp"
 	"encoding/json"
 	"errors"
+	"math"
 	"reflect"
 	"sort"
 	"strings"
@@ -65,6 +66,15 @@ func orderedRangeSort[K cmp.Ordered, V any](m map[K]V) []K {
 	}
 
 	return keys
+}
+
+// AddSat adds two non-negative numbers; a sum that does not fit is the largest
+// int64 instead of a negative number (a lease that ends "never", not in the past)
+func AddSat(a int64, b int64) int64 {
+	if b > 0 && a > math.MaxInt64-b {
+		return math.MaxInt64
+	}
+	return a + b
 }
 
 func ToPointer[T any](val T) *T {
